@@ -5,6 +5,7 @@ import shutil
 import vlib
 from vlib import Check
 from checks import registry_common as rc
+from checks import front_common
 
 
 def run(tier):
@@ -16,6 +17,11 @@ def run(tier):
     beh = rc.gen(c, "SIM_Registry_c12.cfg", 60 if quick else 800, c.seed + 1, "c12_sim", 500 if quick else 8000)
     rc.replay(c, beh, sc, "actor", "NamingActor queries",
               lambda b: any(s["op"] == "disconnect" for s in b["steps"]) and any(s["op"] == "register_grpc" for s in b["steps"]))
+    neg = vlib.tlc_mc("Registry.tla", "MC_Registry_defect_echo.cfg", expect_violation="EchoKeepsEphemeral", name="c12_neg_echo")
+    c.add_negative_control("Registry where the applied removal of a persistent address deletes the instance that is ephemeral by "
+                           "now (code before fix 800aa34) violates EchoKeepsEphemeral", neg["violated"])
+    # ---- front door: handler-derived update tags and the replicated echo, through the real HTTP routes and gRPC connections
+    front_common.run_front_naming(c, sc, quick)
     c.sample({"behaviour_ops": [(s["op"], s.get("s"), s.get("a"), s.get("client") or s.get("new", {}).get("cl")) for s in beh[0]["steps"]]})
     c.assumptions += [
         "query = NamingCmd::QueryList (healthy-only and not) and QueryAllInstanceList after every step; the protection "
@@ -29,7 +35,10 @@ def run(tier):
              "ids, disconnects) replayed on a real NamingActor; after EVERY step the instance queries are compared with "
              "QueryOf of the spec state, returned instances must carry the registered flags and weight, and the whole "
              "state (so: exactly the disconnecting client's ephemeral instances disappear) with the spec; "
-             "non-trivial = contains a gRPC registration and a disconnect",
+             "PLUS the front-door leg: behaviours over the client-visible operations with the update tag each handler derives "
+             "and the replicated echo of persistent instances (SimRegistryFront.tla), executed through the real HTTP routes "
+             "and real gRPC connections of a single-member Raft node, instance queries over HTTP and gRPC compared after every "
+             "step; non-trivial = contains a gRPC registration and a disconnect (or a persistent -> ephemeral flip)",
         checker_cmd="tools/vcheck C12 --tier %s" % tier)
 
 
